@@ -14,6 +14,7 @@ Property theorems only; helper lemmas live in LC/Proofs/MatchOrd.lean.
 import LC.Model.V2Match
 import LC.Gen.V2Tables
 import LC.Proofs.MatchOrd
+import LC.Proofs.Equivariant
 
 namespace LC.V2Match
 
@@ -62,6 +63,33 @@ theorem match_order_independent {C : Type} (N : NumEnv C) (laws : NumLaws N)
     (h₂ : matchModel N crc wordOf isDigitRune decode induced diffOf cntT docs₂ target crs = .ok r₂) :
     r₁.ms = r₂.ms ∧ r₁.totalInputLines = r₂.totalInputLines :=
   match_order_independent' N laws crc wordOf isDigitRune decode induced diffOf cntT docs₁ docs₂ hp target crs r₁ r₂ h₁ h₂
+
+/-! ### the result does not depend on which ids the dictionary happened to assign
+
+Two classifiers built from the same documents in a different order (or a classifier whose
+dictionary grew through `Normalize`) assign different ids to the same words. `σ` renames the
+ids; `wordOf'` is the renamed dictionary; the diff library is assumed to depend on its inputs
+only through their equality pattern (`hd`: it commutes with an injective renaming — go-diff
+works on the rune values the ids are cast to and only compares them). -/
+
+-- `mapKDoc σ d`, `mapTarget σ t`, `mapDiff σ x` (LC/Proofs/Equivariant.lean): the document, the
+-- target tokens, a diff segment with every id replaced by its image under σ.
+
+/-- Renaming the token ids by an injection changes nothing: same matches, same confidences, same
+spans and lines. -/
+theorem match_equivariant {C : Type} (N : NumEnv C) (crc : Text → Nat) (wordOf wordOf' : Nat → Text)
+    (isDigitRune : Nat → Bool) (decode : Text → List Nat) (induced : List (Text × List Text))
+    (diffOf diffOf' : KDoc → Nat → Nat → Option (List (LC.Score.Diff Nat)))
+    (σ : Nat → Nat) (hσ : ∀ a b, σ a = σ b → a = b) (hw : ∀ i, wordOf' (σ i) = wordOf i)
+    (hd : ∀ d a b, diffOf' (mapKDoc σ d) a b = (diffOf d a b).map (List.map (mapDiff σ)))
+    (docs : List KDoc) (target : Array IdTok) (crs : List Nat) :
+    matchModel N crc wordOf' isDigitRune decode induced diffOf'
+        (countOf ((mapTarget σ target).toList.map (·.id)))
+        (docs.map (fun d => prepare crc wordOf' N.q (mapKDoc σ d))) (mapTarget σ target) crs =
+      matchModel N crc wordOf isDigitRune decode induced diffOf
+        (countOf (target.toList.map (·.id)))
+        (docs.map (prepare crc wordOf N.q)) target crs :=
+  match_equivariant' N crc wordOf wordOf' isDigitRune decode induced diffOf diffOf' σ hσ hw hd docs target crs
 
 /-- The dictionary: after any history of additions, ids and words are in bijection, and the id
 of a word never changes once assigned. -/
